@@ -151,7 +151,12 @@ func runProcessScript(c procCase) (fails []h.Failure, obs observations) {
 	pipesBefore, _ := filepath.Glob("/tmp/zinc-server-pipe-*")
 	master := exec.Command(os.Args[0])
 	master.Env = append(os.Environ(), "VERIF_PM_ROLE=1", fmt.Sprintf("VERIF_PM_INIT=%d", c.Init), fmt.Sprintf("VERIF_PM_MAX=%d", c.Max),
-		fmt.Sprintf("VERIF_PM_PORT=%d", port), "VERIF_PM_LOG="+logPath)
+		fmt.Sprintf("VERIF_PM_PORT=%d", port), "VERIF_PM_LOG="+logPath,
+		// DemoHn/Zn's go.mod says go 1.18: its own binaries run with the runtime settings of
+		// that language version (timer channels are buffered and keep a stale tick across
+		// Reset). This harness is a module of a newer version, so the server processes get the
+		// same settings explicitly
+		"GODEBUG=asynctimerchan=1")
 	errFile, _ := os.Create(filepath.Join(dir, "master.err"))
 	master.Stdout, master.Stderr = errFile, errFile
 	master.SysProcAttr = &syscall.SysProcAttr{Setpgid: true}
@@ -336,6 +341,18 @@ func runProcessScript(c procCase) (fails []h.Failure, obs observations) {
 			}
 		}
 	}
+	// without an injected fault, a request the handler started and that stays far below
+	// --timeout (1 s; the handler needs <= 250 ms) is handled to the end: only a worker whose
+	// request outlives the timeout may be terminated
+	if obs.faults == 0 {
+		for pid, ivs := range per {
+			for _, x := range ivs {
+				if !strings.HasPrefix(x.tok, "hang") && x.end == 1<<62 {
+					fail("request-cut-short", fmt.Sprintf("worker %s started request %q and never completed it although no fault was injected and the request needs far less than --timeout", pid, x.tok))
+				}
+			}
+		}
+	}
 	for tok, n := range handled {
 		if n > 1 {
 			fail("request-handled-twice", fmt.Sprintf("token %q was handled %d times", tok, n))
@@ -380,6 +397,22 @@ func tailOf(s string, n int) string {
 	return s
 }
 
+// TestProcessIdleBeyondTimeout - workers that idle longer than --timeout before (and between)
+// their requests: the timeout concerns a request being handled, not the time a worker waits
+func TestProcessIdleBeyondTimeout(t *testing.T) {
+	for i, c := range []procCase{
+		{Init: 1, Max: 1, Steps: []step{{Kind: "wait", Ms: 1300}, {Kind: "requests", Tokens: []string{"slow1"}}, {Kind: "wait", Ms: 1400}, {Kind: "requests", Tokens: []string{"slow2"}}, {Kind: "wait", Ms: 400}, {Kind: "requests", Tokens: []string{"fast3"}}}},
+		{Init: 2, Max: 3, Steps: []step{{Kind: "wait", Ms: 1250}, {Kind: "requests", Tokens: []string{"slow1", "slow2"}}, {Kind: "wait", Ms: 500}, {Kind: "requests", Tokens: []string{"fast3"}}}},
+	} {
+		fails, obs := runProcessScript(c)
+		for k, v := range obs.notObserved {
+			h.R.Count("not-observed: "+k, int64(v))
+		}
+		key, _ := json.Marshal(c)
+		h.R.Case(t, "process", string(key), c, []string{"idle-beyond-timeout", fmt.Sprint("scenario-", i)}, true, fails)
+	}
+}
+
 func TestProcessScripts(t *testing.T) {
 	rapid.Check(t, func(rt *rapid.T) {
 		max := rapid.IntRange(1, 4).Draw(rt, "max")
@@ -404,7 +437,11 @@ func TestProcessScripts(t *testing.T) {
 				c.Steps = append(c.Steps, step{Kind: "kill", Ms: rapid.IntRange(0, 7).Draw(rt, "which")})
 				faults++
 			default:
-				c.Steps = append(c.Steps, step{Kind: "wait", Ms: rapid.IntRange(10, 400).Draw(rt, "ms")})
+				ms := rapid.IntRange(10, 400).Draw(rt, "ms")
+				if rapid.IntRange(0, 3).Draw(rt, "longwait") == 0 {
+					ms = rapid.IntRange(1100, 1500).Draw(rt, "longms") // idle beyond --timeout
+				}
+				c.Steps = append(c.Steps, step{Kind: "wait", Ms: ms})
 			}
 		}
 		fails, obs := runProcessScript(c)
